@@ -457,11 +457,15 @@ class Env(object):
         conds = [c for c, _, _ in self.wf.transitions(act.task)] if act.task in self.wf.tasks else []
         if p.bits and any(c in ("c0", "c1", "raw0", "raw1") for c in conds):
             bkey = ("b:%s" % act.task) if p.by_task else ("b%d" % self.step)
+            # a bit the task's conditions never read is not a decision
+            use0 = any(c in ("c0", "raw0") for c in conds)
+            use1 = any(c in ("c1", "raw1") for c in conds)
             if p.bit_values:
                 # condition values that are not booleans: a transition fires only on a true condition
-                bits = (p.bit_values[self.ch.pick(bkey + ".0", len(p.bit_values))], p.bit_values[self.ch.pick(bkey + ".1", len(p.bit_values))])
+                bits = (p.bit_values[self.ch.pick(bkey + ".0", len(p.bit_values))] if use0 else False,
+                        p.bit_values[self.ch.pick(bkey + ".1", len(p.bit_values))] if use1 else False)
             else:
-                bits = (self.ch.flag(bkey + ".0"), self.ch.flag(bkey + ".1"))
+                bits = (self.ch.flag(bkey + ".0") if use0 else False, self.ch.flag(bkey + ".1") if use1 else False)
         result["c0"], result["c1"] = bits
         if p.tokens and act.task in self.wf.tasks:
             for k, (cond, pubs, do) in enumerate(self.wf.transitions(act.task)):
